@@ -1,8 +1,119 @@
-import WacModel.Spec.Names
+import WacProofs.Lemmas.Names
+/-
+  C15 — semver-compatible name matching is the semver track relation; highest wins.
+
+  Model: `Wac.compat`, `Wac.NameMap.{insert,get}` (WacModel/Names.lean, transcribing names.rs).
+  Specification: `Wac.Spec.{trackOf, compatSpec, getSpec}` (WacModel/Spec/Names.lean).
+-/
 namespace Wac.Props.C15
 open Wac Wac.Spec
 
+/-- C15, first sentence, for all strings: the string-slicing implementation of
+`are_semver_compatible` decides exactly "identical, or same base name and both release
+versions on the same compatibility track". -/
+theorem compat_eq_spec (a b : Str) : compat a b = compatSpec a b := by
+  unfold compat compatSpec
+  by_cases hab : a = b
+  · subst hab; simp
+  · have hne : (a == b) = false := by simpa using hab
+    simp only [hne, Bool.false_eq_true, ↓reduceIte, Bool.false_or]
+    have ha := altKey_track a
+    have hb := altKey_track b
+    cases hka : altKey a with
+    | none =>
+      rw [hka] at ha
+      cases hta : trackOf a with
+      | none => simp
+      | some t => rw [hta] at ha; exact ha.elim
+    | some kv =>
+      obtain ⟨ka, va⟩ := kv
+      rw [hka] at ha
+      cases hta : trackOf a with
+      | none => rw [hta] at ha; exact ha.elim
+      | some ta =>
+        rw [hta] at ha
+        cases hkb : altKey b with
+        | none =>
+          rw [hkb] at hb
+          cases htb : trackOf b with
+          | none => simp
+          | some t => rw [htb] at hb; exact hb.elim
+        | some kv' =>
+          obtain ⟨kb, vb⟩ := kv'
+          rw [hkb] at hb
+          cases htb : trackOf b with
+          | none => rw [htb] at hb; exact hb.elim
+          | some tb =>
+            rw [htb] at hb
+            have := keyRep_eq_iff ha.1 hb.1
+            simp only
+            by_cases hk : ka = kb
+            · simp [hk, this.mp hk]
+            · have hne' : ta ≠ tb := fun h => hk (this.mpr h)
+              have e1 : (ka == kb) = false := beq_eq_false_iff_ne.mpr hk
+              have e2 : (ta == tb) = false := beq_eq_false_iff_ne.mpr hne'
+              rw [e1, e2]
+
+/-- the same statement unfolded: compatible iff identical or on one track -/
+theorem compat_iff (a b : Str) :
+    compat a b = true ↔ a = b ∨ ∃ t, trackOf a = some t ∧ trackOf b = some t := by
+  rw [compat_eq_spec]; unfold compatSpec
+  simp only [Bool.or_eq_true, beq_iff_eq]
+  constructor
+  · rintro (h | h)
+    · exact .inl h
+    · right
+      cases hta : trackOf a with
+      | none => simp [hta] at h
+      | some ta =>
+        cases htb : trackOf b with
+        | none => simp [hta, htb] at h
+        | some tb =>
+          simp [hta, htb] at h; exact ⟨ta, rfl, by rw [h]⟩
+  · rintro (h | ⟨t, h1, h2⟩)
+    · exact .inl h
+    · right; simp [h1, h2]
+
+-- non-vacuity: a pair that is compatible without being identical, and a pair on different tracks
+example : compat "a:b/c@0.2.0".toList "a:b/c@0.2.7+meta".toList = true := by decide
+example : compat "a:b/c@0.2.0".toList "a:b/c@0.3.0".toList = false := by decide
+example : compat "a:b/c@1.2.0".toList "a:b/c@1.9.3".toList = true := by decide
+example : compat "a:b/c@1.2.0-rc".toList "a:b/c@1.9.3".toList = false := by decide
+example : compat "a:b/c@0.0.1".toList "a:b/c@0.0.2".toList = false := by decide
+
 theorem compat_refl (a : Str) : compat a a = true := by
-  simp [compat]
+  rw [compat_iff]; exact .inl rfl
+
+theorem compat_symm (a b : Str) : compat a b = compat b a := by
+  have h : ∀ x y, compat x y = true → compat y x = true := by
+    intro x y h
+    rw [compat_iff] at h ⊢
+    rcases h with h | ⟨t, h1, h2⟩
+    · exact .inl h.symm
+    · exact .inr ⟨t, h2, h1⟩
+  cases hab : compat a b with
+  | true => exact (h a b hab).symm
+  | false =>
+    cases hba : compat b a with
+    | true => rw [h b a hba] at hab; cases hab
+    | false => rfl
+
+theorem compat_trans (a b c : Str) (h1 : compat a b = true) (h2 : compat b c = true) :
+    compat a c = true := by
+  rw [compat_iff] at h1 h2 ⊢
+  rcases h1 with rfl | ⟨t, ha, hb⟩
+  · exact h2
+  · rcases h2 with rfl | ⟨t', hb', hc⟩
+    · exact .inr ⟨t, ha, hb⟩
+    · rw [hb] at hb'; cases hb'
+      exact .inr ⟨t, ha, hc⟩
+
+/-- never compatible across base names, for pre-releases or for 0.0.x -/
+theorem compat_distinct_needs_track (a b : Str) (hne : a ≠ b) (h : compat a b = true) :
+    ∃ t, trackOf a = some t ∧ trackOf b = some t := by
+  rw [compat_iff] at h
+  rcases h with h | h
+  · exact absurd h hne
+  · exact h
 
 end Wac.Props.C15
